@@ -364,5 +364,20 @@ _RULE_ADDENDA = {
     "C19": " Priorities are mostly -2..2 (ties) and sometimes the ends of the int range (MinInt, MaxInt, +-2^31, +-2^62); up to 40 handlers.",
     "C20": " C20Pools also lets every goroutine decode documents into ONE shared struct type using key spellings (upper/lower case) nobody has used before; a field that gets set must hold that goroutine's value. Queue plans include quotas per consumer and a drain phase before Close.",
 }
+_RULE_ADDENDA_R3 = {
+    'C01': ' Round 3: arrays are sometimes 63..4097 elements long (block-size boundaries), strings and keys sweep lengths 9..1027 (powers of two +-3) and contain arbitrary code points; unrelated NBT traffic (accepted, then refused inputs) runs before the operation and between the operation and the comparison.',
+    'C02': ' Round 3: key and root-name lengths sweep 9..1027 bytes; arbitrary code points; unrelated NBT traffic around every operation (see C01).',
+    'C03': ' Round 3: string/name lengths 0x8000..0xffff (negative as signed shorts) fully backed by bytes, with the rest of the document intact.',
+    'C04': ' Round 3: strings and keys contain arbitrary code points (all planes; letters only in the text->binary direction) and swept lengths; unrelated NBT/SNBT traffic, ending in refused texts, before and after each conversion.',
+    'C07': ' Round 3: in half of the cases every frame is received into its own Packet and all of them are compared again after the last frame and after further Pack/UnPack traffic through the shared pools (stream and Conn variants).',
+    'C08': " Round 3: half of the command lines are built from words that match the graph's literals joined by generated separators (blanks, \\t \\n \\r \\v \\f, U+00A0, U+0085, U+2003, U+3000, U+2028, U+1680, U+FEFF, NUL, lone UTF-8 lead/continuation bytes).", 'C09': ' Round 3: 1 in 60 frames is sized so that id+payload fill exactly one or two 32 KiB inflate windows (+-1).',
+    'C10': ' Round 3: C10Conn receives each packet into its own Packet in half of the cases and compares all of them again at the end.',
+    'C11': ' Round 3: a second storage built from the same raw slice and every storage whose Raw() seeded another one are frozen and compared at the end (each storage is its own array); wire round trips are read through readers delivering 1..29 bytes per Read (ByteReader and plain).',
+    'C12': ' Round 3: value pools contain every state the registry calls air.',
+    'C13': ' Round 3: value pools contain air, cave_air and void_air; in save mode the original chunk may be edited (states and biomes already in each palette) between ChunkToSave and ChunkFromSave - the saved form must not follow.',
+    'C17': ' Round 3: unrelated chat traffic (a valid component, then a refused encode and a malformed JSON) before the encode, before the NBT encode and between decode and comparison.',
+}
 for _pid, _txt in _RULE_ADDENDA.items():
+    PROPS[_pid]["rule"] = PROPS[_pid].get("rule", "") + _txt
+for _pid, _txt in _RULE_ADDENDA_R3.items():
     PROPS[_pid]["rule"] = PROPS[_pid].get("rule", "") + _txt
